@@ -54,7 +54,13 @@ WfRecs == {WfRec("x509", ss, n) : ss \in {17, 48, 716, 1244}, n \in 1..3}
           \cup {WfRec("x509", 70016, 1)}                                                      \* one entry of 70 000 data bytes (more than 64 KiB)
           \cup {WfRec("sha256", 48, 0), WfRec("x509", 716, 0), WfRec("extern", 17, 0)}      \* emptied lists keep their SignatureSize
           \cup {WfRecC("x509", 716, 2, "dup"), WfRecC("sha256", 48, 2, "dup"), WfRecC("x509", 716, 1, "pem"), WfRecC("x509", 1244, 2, "pem")}
-WfStreams == {<<>>} \cup {<<a>> : a \in WfRecs} \cup {<<a, b>> : a \in WfRecs, b \in WfRecs}
+(* "any count", "any certificate size": counts around 256 and 512 entries (a dbx holds hundreds of hashes), certificate sizes around 2 KiB and 4 KiB; *)
+(* alone and next to a short list on either side                                                                                                   *)
+LongRecs == {WfRec("sha256", 48, n) : n \in {255, 256, 257, 300, 512, 513, 1000}}
+            \cup {WfRec("x509", 16 + sz, n) : sz \in {2031, 2032, 2033, 2040, 2048, 2049, 4080, 4095, 4096, 4097}, n \in {1, 2}}
+            \cup {WfRec("x509", 48, 300)}
+LongStreams == {<<a>> : a \in LongRecs} \cup {<<a, WfRec("sha256", 48, 1)>> : a \in LongRecs} \cup {<<WfRec("x509", 716, 1), a>> : a \in LongRecs}
+WfStreams == {<<>>} \cup {<<a>> : a \in WfRecs} \cup {<<a, b>> : a \in WfRecs, b \in WfRecs} \cup LongStreams
              \cup (IF Tier = "t" THEN {<<a, b, c>> : a \in WfRecs, b \in WfRecs, c \in WfRecs} ELSE {})
 WfInit == \E s \in WfStreams : Start([s |-> s, g |-> 0, cut |-> PhysLen(s)])
 
